@@ -277,6 +277,11 @@ impl Wire {
             }
         }
         s.writes.push(buf.to_vec());
+        if s.writes.len() > 20_000 {
+            // no harness sends more than a few dozen messages per connection: the code under test
+            // is writing in a loop that does not depend on input any more
+            panic!("livelock: more than 20000 writes on one connection");
+        }
         Poll::Ready(Ok(()))
     }
 }
